@@ -2,6 +2,7 @@ import Driver.Util
 import NutsModel.C01.Verifier
 import NutsModel.C01.Subject
 import NutsModel.C01.CaseVariant
+import NutsModel.C01.RevStore
 import NutsModel.Facts.C01
 open Lean Nuts.Drv Nuts.C01 Nuts
 
@@ -204,6 +205,12 @@ def step (st : St) (j : Json) : St × List String :=
       | Json.arr #[Json.str m, Json.arr fs] => (m, fs.toList.filterMap (fun (x : Json) => x.getStr?.toOption))
       | _ => ("", []))
     (st, [if caseVariantMember top (parseTree 64 (jObj j "tree")) then "variant" else "clean"])
+  | "revstore" =>
+    let f : FindOut := if jBool j "fault" then .error else
+      .docs ((jArr j "docs").map (fun x => match x with | Json.bool b => b | _ => false))
+    let g := getRevocations f
+    let one := match getRevocation g with | .ok _ => "ok" | .err _ => "err" | .panic _ => "panic"
+    (st, ["get=" ++ g.show ++ " revoked=" ++ (isRevoked g).show ++ " one=" ++ one])
   | "rune-tables" =>
     let sp := (List.range 0x3100).filter (fun n => isGoSpace (Char.ofNat n))
     let lo := ((List.range 0x3100).filter (fun n => n ≥ 0x80 && (lowerRune (Char.ofNat n)).toNat < 0x80)).map
